@@ -83,6 +83,10 @@ Effect(idx, ty, st, e) ==
     [] e.op = "parse" -> MergeParse(idx, ty, st, e.b)
     [] e.op = "fromdict_cls" -> [InitAbs(idx, ty) EXCEPT !.val = ApplyKw(idx, ty, NormMsg(idx[ty].fresh), e.kw)]
     [] e.op = "fromdict_inst" -> [st EXCEPT !.val = ApplyKw(idx, ty, st.val, e.kw)]
+    \* in-place mutation of the container the attribute read returns:  m.<f>.append(v)  /  m.<f>[key] = v
+    [] e.op = "append" -> [st EXCEPT !.val[e.f] = [k |-> "list", xs |-> Append(@.xs, Norm(e.v))]]
+    [] e.op = "mapset" -> LET nk == Norm(e.key)  nv == Norm(e.v)  old == st.val[e.f].f IN
+                          [st EXCEPT !.val[e.f] = [k |-> "map", f |-> [x \in (DOMAIN old) \cup {nk} |-> IF x = nk THEN nv ELSE old[x]]]]
     [] OTHER -> st                                   \* observers and copies do not change what is observed
 
 IsMember(idx, ty, n) == idx[ty].byname[n].card = "oneof"
@@ -98,7 +102,21 @@ ExpectedRes(idx, ty, st, e) ==
   ELSE "ok"
 
 \* the observation vector e.obs = [val, wire, raises, dictkeys] judged against the state after the operation
-Judge(idx, ty, st, e, want) ==
+\* C09 along a history (only where the driver asks for it): len() - read before bytes(), so that a size computed or cached
+\* earlier in the history must still be right -, dump() and the size-delimited dump agree with bytes() after every call
+LenJudged(o, op) ==
+  IF o.len # Len(o.wire) THEN <<"len_differs_after_" \o op, <<o.len, Len(o.wire)>> >>
+  ELSE IF o.dump # o.wire THEN <<"dump_differs_after_" \o op, "">>
+  ELSE IF o.delim # EncVarint(FromNat(Len(o.wire))) \o o.wire THEN <<"delimited_framing_after_" \o op, <<Len(o.wire)>> >>
+  ELSE <<"", "">>
+\* C10 along a history: the frame written after this call, put on a stream twice, is read back by two loads as this value, twice
+RereadJudged(o, op, val) ==
+  IF o.reread_res = "skipped" THEN <<"", "">>
+  ELSE IF o.reread_res # "ok" THEN <<"delimited_frame_not_read_back_after_" \o op, o.reread_res>>
+  ELSE IF \E j \in 1..Len(o.reread) : ~SameVal(NormMsg(o.reread[j]), val) THEN <<"delimited_frame_reads_back_other_value_after_" \o op, "">>
+  ELSE <<"", "">>
+
+Judge(idx, ty, st, e, want, judgeLen) ==
   LET o == e.obs  ov == NormMsg(o.val) IN
   IF e.res # want /\ e.op \notin Tolerated
   THEN Fail(st, "op_" \o e.op \o "_result_" \o e.res, want)
@@ -119,9 +137,11 @@ Judge(idx, ty, st, e, want) ==
          THEN Fail(st, "json_oneof_members_after_" \o e.op, "")
     ELSE IF e.op \in Copiers /\ ~e.eq THEN Fail(st, e.op \o "_not_equal_to_original", "")
     ELSE IF e.op \in Copiers /\ ~e.samebytes THEN Fail(st, e.op \o "_bytes_differ_from_original", "")
+    ELSE IF judgeLen /\ LenJudged(o, e.op)[1] # "" THEN Fail(st, LenJudged(o, e.op)[1], LenJudged(o, e.op)[2])
+    ELSE IF judgeLen /\ RereadJudged(o, e.op, st.val)[1] # "" THEN Fail(st, RereadJudged(o, e.op, st.val)[1], RereadJudged(o, e.op, st.val)[2])
     ELSE st
 
-Step(idx, ty, st, e) ==
+Step(idx, ty, st, e, judgeLen) ==
   LET want == ExpectedRes(idx, ty, st, e) IN
-  Judge(idx, ty, IF want = "ok" THEN Effect(idx, ty, st, e) ELSE st, e, want)
+  Judge(idx, ty, IF want = "ok" THEN Effect(idx, ty, st, e) ELSE st, e, want, judgeLen)
 =============================================================================
